@@ -37,6 +37,27 @@ def jacobian_column_write(F, ev, b):
     if len(cw) != 1:
         raise AnchorMissing("expected exactly one full write of a column of the returned Jacobian per iteration, found %d" % len(cw))
     w = cw[0]
+    # a fast path that writes the same column element by element (next to the whole-column copy as its fallback) must
+    # write the same values: element i of the column is element i, in column-major order, of the matrix whose
+    # column-major stacking the whole-column copy writes — and it must cover the column
+    from rules_problem import flatten_arg
+    ews = tab.elementwise_column_writes(cn, effs)
+    for w0 in tab.element_writes(cn, effs):
+        # fail closed: any other store into the returned matrix is a form this rule does not know
+        tgt = w0.D[1] if w0.D is not None and w0.D[0] == "col" else w0.D
+        if tgt is not None and nosite(tgt) in rets and not any(w2.eff is w0.eff for w2 in ews):
+            raise AnchorMissing("a store into the returned Jacobian at `%s` that is neither a whole-column copy nor an element-wise copy of a column" % ", ".join(short(i)[:40] for i in w0.idx))
+    for w2 in ews:
+        if rets and nosite(w2.D) not in rets:
+            continue
+        Mx = flatten_arg(w.val)
+        v2 = w2.val[1]
+        same = Mx is not None and w2.idx[0] == w.idx[0] and v2[0] == "at" and len(v2) == 3 and nosite(v2[1]) == nosite(Mx) and v2[2] == w2.val[2]
+        if not same:
+            raise AnchorMissing("a second, element-wise write of the Jacobian column stores `%s`, not the elements of the matrix the whole-column copy stacks" % short(v2)[:120])
+        ok, why = tab.elements_cover_column(cn, w2)
+        if not ok:
+            raise AnchorMissing("element-wise write of the Jacobian column: " + why)
     return w.D, w.idx[0], w.val, w.eff, effs, cn
 
 
@@ -279,7 +300,39 @@ def rule_row_scaling(F, ev_unused, R, config, rule="R-ROW-SCALING"):
                 good += 1
             else:
                 others.append("component_mul_assign(%s, %s)" % (short(col)[:50], short(dg)[:40]))
-        elif m in ("column_iter_mut", "column_mut", "nrows", "ncols", "size", "len", "for_each", "into_iter", "next", "enumerate", "shape") or e.cid.startswith("core::panicking") or "assert_failed" in e.cid or "fmt::" in e.cid:
+        elif m == "mul_assign" and len(e.raw) == 2:
+            # element form: M[i, k] *= d[i] for every column k and every row i (one pass over the elements instead of
+            # nalgebra's per-column kernel; the same multiplication per element)
+            a_, d_ = cn.canon(e.raw[0]), cn.canon(e.raw[1])
+            while d_[0] == "call" and d_[1] in ("std::clone::Clone::clone",) and d_[3]:
+                d_ = d_[3][0]
+            okel = False
+            if a_[0] == "at" and d_[0] == "at" and len(d_) == 3 and d_[1][0] == "field" and cn.container(d_[1][1]) == ("param", d.key, 1):
+                row = d_[2]
+                colk = None
+                if len(a_) == 3 and a_[1][0] == "col" and a_[1][1] == rhs and a_[2] == row:
+                    colk = a_[1][2]
+                elif len(a_) == 4 and a_[1] == rhs and a_[2] == row:
+                    colk = a_[3]
+                if colk is not None and colk[0] == "iv" and row[0] == "iv" and colk != row and tab.executes_every_iteration(e):
+                    ce = cn.extent.get(colk[1])
+                    re_ = cn.extent.get(row[1])
+                    g_ = Guards(ev2, e.body, e.env)
+                    facts = [(r[0], cn.norm_extent(cn.canon(r[1])), cn.norm_extent(cn.canon(r[2]))) for r in g_.relations_at(e.block)[0] if r[0] in ("Le", "Lt", "Eq")]
+                    want_r = cn.norm_extent(("nrows", rhs))
+                    def covers(ext, want):
+                        if ext == want or tab.provably_eq(ext, want, facts):
+                            return True
+                        if ext and ext[0] == "min":
+                            xs = [x if not (x[0] == "nrows" and x[1][0] == "col" and x[1][1] == rhs) else want for x in ext[1]]
+                            return any(x == want or tab.provably_eq(x, want, facts) for x in xs) and all(x == want or tab.provably_eq(x, want, facts) or tab.provably_le(want, x, facts) for x in xs)
+                        return False
+                    okel = ce == ("ncols", rhs) and covers(re_, want_r)
+            if okel:
+                good += 1
+            else:
+                others.append("mul_assign(%s, %s)" % (short(a_)[:50], short(d_)[:40]))
+        elif m in ("column_iter_mut", "column_mut", "nrows", "ncols", "size", "len", "for_each", "into_iter", "next", "enumerate", "shape", "iter", "iter_mut", "zip", "clone") or e.cid.startswith("core::panicking") or "assert_failed" in e.cid or "fmt::" in e.cid:
             continue
         else:
             others.append(e.cid)
@@ -727,9 +780,18 @@ def proven_full_overwrite(F, ev, b, bi, t):
     A = nosite(cn.container(alloc))
     ncols = dimval(a[3][1])
     ws = [w for w in tab.column_writes(cn, effs) if nosite(w.D) == A]
-    if not ws:
-        return False, "no full-column write into the uninitialised matrix was found (undetermined)"
     reasons = []
+    # a column written element by element counts when the element iteration covers the whole column
+    for w in tab.elementwise_column_writes(cn, effs):
+        if nosite(w.D) != A:
+            continue
+        ok, why = tab.elements_cover_column(cn, w)
+        if ok:
+            ws.append(w)
+        else:
+            reasons.append(why + " (column left uninitialised)")
+    if not ws:
+        return False, reasons[0] if reasons else "no full-column write into the uninitialised matrix was found (undetermined)"
     for w in ws:
         k = w.idx[0]
         if k[0] != "iv":
@@ -739,13 +801,15 @@ def proven_full_overwrite(F, ev, b, bi, t):
             reasons.append("the iteration (`%s` rounds) may end before all %s columns of the allocation are written: columns may stay uninitialised"
                            % (short(cn.extent.get(k[1]))[:80] if cn.extent.get(k[1]) else "?", short(ncols)[:40]))
             continue
-        ok, why = tab.written_each_iteration(cn, w, k)
+        # a fast path and its fallback: the other full writes of the same column
+        alts = [w2 for w2 in ws if w2 is not w and w2.idx[0] == k]
+        ok, why = tab.written_each_iteration(cn, w, k, alts)
         if not ok:
             reasons.append(why + " (column left uninitialised)")
             continue
         key = [kk for kk, n in cn.keys.items() if n == k[1]][0]
         m = key[1]
-        chain = tab.chain_of(w.eff, F)
+        chain = tab.write_chain(cn, w)
         if m[0] == "next":
             _, bkey, nblk, path = m
             body = chain[len(path)][0]
@@ -965,7 +1029,8 @@ def ret_signature(v):
     return (tuple(present), absent)
 
 
-RAYON_OK = {"par_column_iter_mut", "enumerate", "map", "collect"}
+# try_for_each: runs the closure for every item and keeps only "did any fail" — no value depends on the schedule
+RAYON_OK = {"par_column_iter_mut", "enumerate", "map", "collect", "try_for_each"}
 
 
 def rule_par_pure(F, ev, R, config, rule="R-PAR-PURE", metadata=None):
@@ -982,11 +1047,15 @@ def rule_par_pure(F, ev, R, config, rule="R-PAR-PURE", metadata=None):
                 ok = fn["name"] in RAYON_OK
                 R.add(rule, config, b.key, "rayon:" + fn["name"], ok,
                       "" if ok else "rayon combinator `%s` (a reduction/fold/for_each makes the result depend on the schedule)" % fn["name"], t.get("span"))
-                if fn["name"] == "map":
+                if fn["name"] in ("map", "try_for_each"):
                     # the closure
                     env = Env(b)
                     v = ev.call_val(env, bi)
                     c = v[3][1] if v[0] == "call" else None
+                    if fn["name"] == "try_for_each":
+                        ty = b.local_ty(t["dest"]["l"]) or ""
+                        okp = ty.startswith("std::result::Result<()") or ty.startswith("std::option::Option<()")
+                        R.add(rule, config, b.key, "collected-payload-is-unit", okp, "" if okp else "try_for_each yields `%s`" % ty[:80], t.get("span"))
                     if not c or c[0] != "closure":
                         R.bad(rule, config, b.key, "rayon-closure", "map() argument is not a closure literal (undetermined)", t.get("span"))
                         continue
